@@ -825,6 +825,9 @@ FORCE_EXTERNAL = set()
 # still verified
 DEMOTED = set()
 DEMOTE_REASON = {}
+# demoted functions whose CONTRACT text the front end rejects as well (e.g. the change removed a trait bound the clause uses):
+# emitted without contract and without body, all their obligations undecided
+NOCONTRACT = set()
 
 
 def outside_subset():
@@ -837,6 +840,9 @@ def outside_subset():
 
 def effective_fc(fc, ctx, toks, fn):
     """(FnC to splice, tried_body): see FnC.try_body"""
+    if ctx in NOCONTRACT and fn.body:
+        fc2 = FnC(external_body=True, props=(fc.props if fc is not None else ()), note='[front end rejects the contract text against the changed item: undecided]')
+        return fc2, False
     if ctx in DEMOTED and fn.body:
         import copy
         fc2 = copy.copy(fc) if fc is not None else FnC()
